@@ -238,7 +238,39 @@ let run_monitor (id : string) (case : string list) (result : string) : string =
   | "C03" ->
     if not (wf_history iters) then "PASS outside-quantifier" else
     let tr = List.map (fun (e, _) -> List.map (fun (ch, ev) -> OEvt (ch, ev)) e) obs in
-    if chk_C03 ifs iters tr then "PASS"
+    if chk_C03 ifs iters tr then begin
+      (* the clause "as the network LAST advertised it" *)
+      if chk_C03_last ifs iters tr then "PASS" else begin
+        (* every event that breaks the clause; the known class: the SRV / TXT records of the instance
+           were delivered in the pattern A, B, A - the older record announced again after another one *)
+        let rec take n l = match l with x :: t when n > 0 -> x :: take (n - 1) t | _ -> [] in
+        let aba l =
+          let rec after a seen_b = function
+            | [] -> false
+            | x :: t -> if same_key a x then (seen_b || after a false t) else after a true t in
+          let rec go = function [] -> false | a :: rest -> after a false rest || go rest in
+          go l in
+        let reannounced k inst =
+          let dl = List.concat_map (fun it -> iter_dlvs ifs it) (take (k + 1) iters) in
+          let of_ty t = List.filter (fun d -> d.dl_rr.r_name = inst && int_of_n d.dl_rr.r_type = t) dl in
+          aba (of_ty 33) || aba (of_ty 16) in
+        let rec go k q prev its tr acc =
+          match its, tr with
+          | it :: its', o :: tr' ->
+            let cur = iter_fdlvs ifs q it in
+            let bad = List.filter_map (fun x -> match x with
+                | OEvt (_, (EResolved r as e)) when not (out_last_ok prev cur it.i_now x) -> Some (k, r.rs_name, e)
+                | _ -> None) o in
+            go (k + 1) (q_after q it.i_calls) (prev_after prev cur it.i_calls) its' tr' (acc @ bad)
+          | _ -> acc in
+        let bad = go 0 [] [] iters tr [] in
+        let tags = List.sort_uniq compare (List.map (fun (k, inst, _) ->
+            if reannounced k inst then "notlast:reannounced-older" else "notlast") bad) in
+        let (k0, _, e0) = List.hd bad in
+        Printf.sprintf "FAIL[%s] ServiceResolved does not carry the SRV / TXT data received last: it %d: %s (%d events)"
+          (String.concat "," tags) k0 (string_of_event e0) (List.length bad)
+      end
+    end
     else begin
       (* locate the first event that is not justified *)
       let rec go k prev its tr =
